@@ -516,6 +516,10 @@ func checkDiscipline(w *World, r *Report, la *LockAnalysis, filter func(sharedSt
 				r.OK("R09.1", construct, a.Pos(), true, "%s held (%s)", path, need)
 			} else if isFreshAccess(a) {
 				r.OK("R09.1", construct, a.Pos(), true, "object still private to its allocating function")
+			} else if anonHeld(la, held, w.Field(w.pkgByShort(row.pkg), row.strct, row.mu), need) && viaBackReference(a) {
+				// a short-lived record (cycleSearch{graph: g}) created and used under g's lock: its methods
+				// reach the graph through the record's back-reference and cannot name the lock their caller holds
+				r.OK("R09.1", construct, a.Pos(), true, "the lock of the %s is held by the caller (anonymous lock fact); the access goes through a back-reference field of a record created under that lock", row.strct)
 			} else if a.Kind == "addr" && addrUnderParamLock(w, la, a, w.Field(w.pkgByShort(row.pkg), row.strct, row.mu)) {
 				r.OK("R09.1", construct, a.Pos(), true, "the address is handed, together with the address of %s, to a private function that touches the field only while holding that lock", path)
 			} else {
@@ -784,4 +788,31 @@ func discoverWrappers(w *World) ([]sharedStruct, map[string]sharedStruct) {
 		}
 	}
 	return out, owner
+}
+
+// anonHeld: an anonymous lock fact "^Struct.mu" for this mutex field is held in a sufficient mode.
+func anonHeld(la *LockAnalysis, held Facts, mu *types.Var, need string) bool {
+	if mu == nil {
+		return false
+	}
+	return holds(held, "^"+la.W.canonField(mu), need)
+}
+
+// viaBackReference: the access x.f.field goes through a field f (of pointer type) of the unit's
+// receiver or of a parameter - not through the receiver itself.
+func viaBackReference(a *Access) bool {
+	sel, ok := unparen(a.Base).(*ast.SelectorExpr)
+	if !ok || a.Unit == nil {
+		return false
+	}
+	info := a.Unit.pkg.TypesInfo
+	fv := plainFieldOf(info, sel)
+	if fv == nil {
+		return false
+	}
+	if _, isPtr := fv.Type().Underlying().(*types.Pointer); !isPtr {
+		return false
+	}
+	_, isId := unparen(sel.X).(*ast.Ident)
+	return isId
 }
